@@ -2,7 +2,7 @@
 weight-enumerator sum rules.
 
 Model: lean/NumqiModel/Qec.lean.  Generated data: lean/NumqiModel/Generated/QecCircuits.lean (written by
-`translate` on every run from the live `numqi.qec.generate_code*()` objects and the AST of `_qecc.py`).
+`translate` on every run by executing the `numqi.qec.generate_code*()` of the tree under test and reading what they build).
 Theorems: lean/NumqiProps/C19.lean (7 codes up to 10 qubits + general theorems), C19Thorough.lean (11 qubits).
 Correspondence: exact (scaled Gaussian-integer amplitudes, canonical Pauli strings, integers).
 """
@@ -170,6 +170,24 @@ def run_generator_recording(gen):
             return code, [str(x) for x in v], f'dict key {k_!r}'
     if len(recorded) == ncirc and ncirc > 0 and all(isinstance(x, str) for x in recorded):
         return code, list(recorded), 'parse_simple_pauli arguments'
+    # last resort: the strings are not observable (the generator does not go through the module-level parser): read each
+    # string off its circuit when that circuit consists of X/Y/Z gates on distinct qubits.  The obligation "circuit = listed
+    # string" is then vacuous for this code (noted in the evidence); "listed strings fix the code words" keeps its meaning.
+    try:
+        n = int(code['num_qubit'])
+        derived = []
+        for circ in code['stabilizer']:
+            w = ['I'] * n
+            for g, idx in circ.gate_index_list:
+                cg = classify_gate(g, idx)
+                if cg[0] not in ('x', 'y', 'z') or not (0 <= cg[1] < n) or w[cg[1]] != 'I':
+                    raise ValueError
+                w[cg[1]] = cg[0].upper()
+            derived.append(''.join(w))
+        if derived:
+            return code, derived, f'read off the stabilizer circuits (strings not observable: {len(recorded)} parse_simple_pauli calls for {ncirc} circuits)'
+    except Exception:
+        pass
     return code, None, f'not recoverable ({len(recorded)} parse_simple_pauli calls for {ncirc} circuits)'
 
 
@@ -285,6 +303,8 @@ def translate(ctx):
                                    discovered=codes.get('__discovered__'), not_in_pinned_table=[f for f in codes.get('__discovered__', []) if f not in PINNED],
                                    pinned_missing=[f for f in PINNED if f not in codes.get('__discovered__', [])])
     for c in cds:
+        if 'error' not in c and str(c.get('listed_how', '')).startswith('read off'):
+            ctx.note(f'{c["fname"]}: listed strings {c["listed_how"]}; "circuit implements its listed string" is vacuous for this code in this run')
         if 'error' not in c and c.get('listed_ast') is not None and c.get('listed') is not None and c['listed_ast'] != c['listed']:
             ctx.note(f'{c["fname"]}: the string list read from the AST of _qecc.py differs from the strings observed at run time (cross-check only)')
     if not ctx.quick():
